@@ -1,11 +1,18 @@
 //! Harness binary `h_kad_a <PROP> --seed S --tier T [--count N] [--replay F]`.
 //! One module per property (`cNN.rs`, `pub fn run(args: &hcore::Args, out: &mut hcore::Out)`).
 
+mod c37;
+mod c38;
+mod c40;
+
 fn main() {
     let args = hcore::Args::parse();
     hcore::quiet_panics();
     let mut out = hcore::Out::new();
     match args.prop.as_str() {
+        "C37" => c37::run(&args, &mut out),
+        "C38" => c38::run(&args, &mut out),
+        "C40" => c40::run(&args, &mut out),
         p => {
             let _ = &mut out;
             eprintln!("h_kad_a: unknown property {p}");
